@@ -390,17 +390,27 @@ const fn flavour(d: Desc, seed: u64, i: u64) -> Desc {
         2 if HAVE_POW2 => {
             d.radix = 2;
             d.prefix = b'b';
+            // binary mantissa with decimal exponent digits (exponent digits that are not mantissa digits)
+            if r & 512 != 0 {
+                d.exp_radix = 10;
+            }
         },
         3 if HAVE_RADIX => {
             d.radix = 3;
             if r & 256 != 0 {
                 d.suffix = b't';
             }
+            if r & 512 != 0 {
+                d.exp_radix = 10;
+            }
         },
         4 if HAVE_POW2 => {
             d.radix = 8;
             d.prefix = b'o';
             d.suffix = if r & 256 != 0 { b'q' } else { 0 };
+            if r & 1024 != 0 {
+                d.exp_radix = 10;
+            }
         },
         _ => {
             // decimal; sometimes with a 'd' prefix/suffix
